@@ -352,7 +352,7 @@ example : ∃ (fac : ℚ → Mat ℚ 1 1 → Mat ℚ 1 1) (P : Mat ℚ 1 1),
 Angles are compared modulo 2π through their representative in `(-π, π]` (`wrapAngle`); quaternions
 in the rotation-vector tangent space.  "Spreads small enough" is made precise by the hypotheses:
 offsets in `(-π, π)`, positive weighted resultant (angles); rotation vectors of norm in
-`(10⁻⁴, π)` clearing the second cut-off (quaternions). -/
+`(10⁻⁴, π)` clearing the cut-off `5·10⁻⁵` of the logarithm (quaternions). -/
 
 section circular
 open Real
@@ -403,10 +403,10 @@ theorem ut_quat_exp_unit (r : V3 ℝ) :
     (qexp r).w ^ 2 + (qexp r).x ^ 2 + (qexp r).y ^ 2 + (qexp r).z ^ 2 = 1 := qexp_unit r
 
 /-- Input offsets of the quaternion sigma points: `diff_quaternion(exp(r/2) ⊗ q, q) = r` for a unit
-    mean `q` and `10⁻⁴ < ‖r‖ < π`, `sin(‖r‖/2) > 10⁻⁴` (exact outside the cut-off band); a zero
+    mean `q` and `10⁻⁴ < ‖r‖ < π`, `sin(‖r‖/2) > 5·10⁻⁵` (exact outside the cut-off band); a zero
     perturbation leaves the mean. -/
 theorem ut_quat_input_offsets (q : Quat ℝ) (hq : q.w ^ 2 + q.x ^ 2 + q.y ^ 2 + q.z ^ 2 = 1) (r : V3 ℝ)
-    (h1 : (1e-4 : ℝ) < r.norm) (h2 : r.norm < π) (h3 : (1e-4 : ℝ) < Real.sin (r.norm / 2)) :
+    (h1 : (1e-4 : ℝ) < r.norm) (h2 : r.norm < π) (h3 : (5e-5 : ℝ) < Real.sin (r.norm / 2)) :
     qdiff (qsum q r) q = r ∧ qsum q ⟨0, 0, 0⟩ = q :=
   ⟨qdiff_qsum q hq r h1 h2 h3, qsum_zero q⟩
 
